@@ -2,6 +2,7 @@ package props
 
 import (
 	"bytes"
+	"encoding/hex"
 	"encoding/json"
 	"fmt"
 	"regexp"
@@ -14,6 +15,7 @@ import (
 	"verifharness/refcrypto"
 	"verifharness/wworld"
 
+	"github.com/btcsuite/btcd/btcec/v2"
 	"github.com/elnosh/gonuts/cashu"
 )
 
@@ -35,6 +37,85 @@ type c08Known struct {
 	secretOfR map[string]string
 	shared    []string
 	bs        map[string]bool // blinded messages seen in request bodies
+	// rG: x coordinate of r*G for every known blinding factor. B_ - r*G = hash_to_curve(secret): a mint
+	// that is shown r*G (as a "public key", say) connects the blinded message with the proof
+	rG map[string]string
+	// issued: values only the mint and the wallet know about one blind signature (its DLEQ e and s,
+	// the x coordinate of C_), from the mints' answers; the mint stores them next to B_, so any of
+	// them sent along with a proof tells it which signature the proof comes from
+	issued map[string]string
+}
+
+func (k *c08Known) addRG(r, where string) { // caller holds k.mu
+	if k.rG == nil {
+		k.rG = map[string]string{}
+	}
+	var sc btcec.ModNScalar
+	b, err := hex.DecodeString(r)
+	if err != nil || len(b) != 32 {
+		return
+	}
+	sc.SetByteSlice(b)
+	if sc.IsZero() {
+		return
+	}
+	var pt btcec.JacobianPoint
+	btcec.ScalarBaseMultNonConst(&sc, &pt)
+	pt.ToAffine()
+	x := pt.X.Bytes()
+	k.rG[hex.EncodeToString(x[:])] = where
+}
+
+// fromResponse records what the mint handed out with its blind signatures.
+func (k *c08Known) fromResponse(rec *inproc.Record) {
+	if len(rec.RespBody) == 0 || rec.Status != 200 {
+		return
+	}
+	var resp struct {
+		Signatures []struct {
+			C_   string `json:"C_"`
+			DLEQ *struct {
+				E string `json:"e"`
+				S string `json:"s"`
+			} `json:"dleq"`
+		} `json:"signatures"`
+		Change []struct {
+			C_   string `json:"C_"`
+			DLEQ *struct {
+				E string `json:"e"`
+				S string `json:"s"`
+			} `json:"dleq"`
+		} `json:"change"`
+	}
+	if json.Unmarshal(rec.RespBody, &resp) != nil {
+		return
+	}
+	k.mu.Lock()
+	defer k.mu.Unlock()
+	if k.issued == nil {
+		k.issued = map[string]string{}
+	}
+	for _, l := range [][]struct {
+		C_   string `json:"C_"`
+		DLEQ *struct {
+			E string `json:"e"`
+			S string `json:"s"`
+		} `json:"dleq"`
+	}{resp.Signatures, resp.Change} {
+		for _, sg := range l {
+			if len(sg.C_) == 66 {
+				k.issued[strings.ToLower(sg.C_[2:])] = "C_ of a blind signature returned by " + rec.Path
+			}
+			if sg.DLEQ != nil {
+				if len(sg.DLEQ.E) == 64 {
+					k.issued[strings.ToLower(sg.DLEQ.E)] = "DLEQ e of a blind signature returned by " + rec.Path
+				}
+				if len(sg.DLEQ.S) == 64 {
+					k.issued[strings.ToLower(sg.DLEQ.S)] = "DLEQ s of a blind signature returned by " + rec.Path
+				}
+			}
+		}
+	}
 }
 
 func (k *c08Known) addR(r, where string) {
@@ -45,6 +126,7 @@ func (k *c08Known) addR(r, where string) {
 	k.mu.Lock()
 	if _, ok := k.rs[r]; !ok {
 		k.rs[r] = where
+		k.addRG(r, where)
 	}
 	k.mu.Unlock()
 }
@@ -88,6 +170,7 @@ func (k *c08Known) derive(wn *wworld.WalletNode, seed []byte, id string, upto ui
 		}
 		k.mu.Lock()
 		k.rs[refcrypto.Hex32(r)] = fmt.Sprintf("NUT-13 %s keyset %s counter %d", wn.Name, id, c)
+		k.addRG(refcrypto.Hex32(r), fmt.Sprintf("NUT-13 %s keyset %s counter %d", wn.Name, id, c))
 		k.secrets[sec] = fmt.Sprintf("NUT-13 %s keyset %s counter %d", wn.Name, id, c)
 		k.mu.Unlock()
 	}
@@ -141,6 +224,12 @@ func c08Inspect(r *core.Run, k *c08Known, rec *inproc.Record, sig string, tail [
 			looked++
 			if where, ok := k.rs[w]; ok {
 				r.Violate("blinding-factor-in-request:"+rec.Path, fmt.Sprintf("a request body to %s contains a blinding factor (%s)", endpoint, where), sig, wit)
+			}
+			if where, ok := k.rG[w]; ok {
+				r.Violate("blinding-factor-public-point-in-request:"+rec.Path, fmt.Sprintf("a request body to %s contains r*G for a blinding factor r (%s): B_ - r*G is hash_to_curve of the secret, so the mint can connect the blinded message with the proof", endpoint, where), sig, wit)
+			}
+			if where, ok := k.issued[w]; ok {
+				r.Violate("issued-signature-data-in-request:"+rec.Path, fmt.Sprintf("a request body to %s contains the %s: the mint keeps it next to B_, so it tells which signature the ecash comes from", endpoint, where), sig, wit)
 			}
 		}
 	}
@@ -273,6 +362,7 @@ func runC08(r *core.Run) {
 				}
 				csig := fmt.Sprintf("%s/req%d", sig, rec.Seq)
 				n := c08Inspect(r, known, rec, csig, s.Tail(4))
+				known.fromResponse(rec)
 				r.Eval(csig, n > 0)
 				endpointsSeen.Store(rec.Path, true)
 				r.Count("request_bodies_inspected", 1)
